@@ -91,6 +91,17 @@ def main():
             "SECCOMP_RET_KILL_PROCESS", "SECCOMP_RET_KILL_THREAD", "SECCOMP_RET_TRAP", "SECCOMP_RET_ERRNO", "SECCOMP_RET_USER_NOTIF",
             "SECCOMP_RET_TRACE", "SECCOMP_RET_LOG", "SECCOMP_RET_ALLOW", "PR_SET_NO_NEW_PRIVS", "PR_SET_SECCOMP", "EPERM", "ENOSYS", "EINVAL", "EACCES",
             "__X32_SYSCALL_BIT", "SECCOMP_RET_DATA", "SECCOMP_RET_ACTION_FULL"]
+    # besides the names the rules refer to: every other integer-valued SECCOMP_*, PR_* and errno define of the same headers,
+    # so that a constant the library starts to expose later (a further action, filter flag, prctl option, errno) has an
+    # oracle value too
+    base_errnos = set(defines(os.path.join(INC, "asm-generic/errno-base.h")))  # 1..34: the same on every architecture
+    for k in sorted(env):
+        if k in want:
+            continue
+        if re.match(r"^E[A-Z0-9]+$", k) and k not in base_errnos:
+            continue  # errno values above 34 differ between architectures (mips, sparc, alpha, parisc)
+        if re.match(r"^(SECCOMP_(RET|FILTER_FLAG|SET_MODE|GET|MODE|USER_NOTIF_FLAG|ADDFD_FLAG)_[A-Z0-9_]+|SECCOMP_RET_[A-Z]+|PR_[A-Z0-9_]+|E[A-Z0-9]+)$", k):
+            want.append(k)
     for w in want:
         v = evalc(env.get(w, ""), env) if w in env else None
         if v is not None:
